@@ -10,12 +10,6 @@ package sm2ec
 // infinity PINF, and PDEC (decoding of an encoded point). Users are verified against these contracts.
 //@ ghost ptv : Int
 
-//@ func (*SM2P256Point).SetBytes trusted
-//@   params b
-//@   ensures err == nil ==> sameobj(result0, self) && result0 != nil && ghost(ptv, self) == PDEC(arr(b), offof(b), len(b))
-//@   ensures err != nil ==> result0 == nil
-//@   modifies *self, ghost(ptv, self)
-
 //@ func (*SM2P256Point).ScalarBaseMult trusted
 //@   params scalar
 //@   ensures err == nil ==> sameobj(result0, self) && result0 != nil && ghost(ptv, self) == SBMUL(BEV(arr(scalar), offof(scalar), len(scalar)))
@@ -52,3 +46,50 @@ package sm2ec
 //@   ensures err == nil ==> len(result0) == 32 && BEV(arr(result0), offof(result0), 32) == ORDINV(BEV(arr(k), offof(k), len(k)))
 //@   fresh result0
 //@   modifies nothing
+
+// ---- strict point decoding (C05): the field primitives are ASSUMED (frames; p256LessThanP decides
+// "below the field prime", p256CheckOnCurve the curve equation); what is decided is that SetBytes
+// accepts only the three documented forms, only coordinates below p, only after the curve check (or a
+// successful square root for the compressed form), never panics, and leaves the receiver untouched
+// when it reports an error.
+//@ func p256BigToLittle trusted
+//@   ensures P256V(objof(res)) == BEV(arr(in), offof(in), 32)
+//@   modifies *res
+//@ func p256LessThanP trusted
+//@   ensures (result == 0 || result == 1) && (result == 1 <==> P256V(objof(x)) < P256P())
+//@   modifies nothing
+//@ func p256Mul trusted
+//@   modifies *res
+//@ func p256CheckOnCurve trusted
+//@   modifies nothing
+//@ func p256Polynomial trusted
+//@   modifies *y2
+//@ func p256Sqrt trusted
+//@   modifies *e
+//@ func p256FromMont trusted
+//@   modifies *res
+//@ func p256NegCond trusted
+//@   modifies *val
+//@ func NewSM2P256Point trusted
+//@   ensures result != nil
+//@   fresh result
+//@   modifies nothing
+//@ func (*SM2P256Point).Set trusted
+//@   params q
+//@   ensures sameobj(result, self) && result != nil
+//@   modifies *self
+
+//@ func (*SM2P256Point).SetBytes property C05,C13
+//@   requires p != nil
+//@   let S := state()
+//@   let BA := arr(b)
+//@   let BO := offof(b)
+//@   bind after call p256CheckOnCurve#1: ONC := ite(isnil(result), 1, 0)
+//@   bind after call p256Sqrt#1: SQ := ite(result, 1, 0)
+//@   ensures err == nil ==> sameobj(result0, p) && ((len(b) == 1 && BA[BO] == 0) || (len(b) == 65 && BA[BO] == 4) || (len(b) == 33 && (BA[BO] == 2 || BA[BO] == 3)))
+//@   ensures err == nil && len(b) == 65 ==> BEV(BA, BO + 1, 32) < P256P() && BEV(BA, BO + 33, 32) < P256P() && ONC == 1
+//@   ensures err == nil && len(b) == 33 ==> BEV(BA, BO + 1, 32) < P256P() && SQ == 1
+//@   ensures err != nil ==> result0 == nil && unchanged(S, *p)
+//@   ensures err == nil ==> result0 != nil && ghost(ptv, p) == PDEC(BA, BO, len(b))
+//@   ghostset ptv[p] := PDEC(BA, BO, len(b))
+//@   modifies *p, ghost(ptv, p)
